@@ -360,9 +360,6 @@ impl datagram_pipe::Sink for IcmpSink {
         };
 
         let serialized = datagram.message.serialize();
-        socket
-            .send_to(datagram.meta.peer, datagram.ttl, &serialized)
-            .await?;
 
         let deadline = Instant::now()
             + forwarder_shared
@@ -371,25 +368,42 @@ impl datagram_pipe::Sink for IcmpSink {
                 .as_ref()
                 .unwrap()
                 .request_timeout;
-        let mut listeners = forwarder_shared.listeners.lock().unwrap();
-        listeners.reply_waiters.insert(
-            echo.clone(),
-            ReplyWaiter {
-                original_peer: datagram.meta.peer,
-                waker_tx: self.tx.clone(),
-            },
-        );
+        {
+            let mut listeners = forwarder_shared.listeners.lock().unwrap();
+            listeners.reply_waiters.insert(
+                echo.clone(),
+                ReplyWaiter {
+                    original_peer: datagram.meta.peer,
+                    waker_tx: self.tx.clone(),
+                },
+            );
 
-        match listeners.deadlines.entry(deadline) {
-            Entry::Vacant(e) => {
-                e.insert(LinkedList::from([echo.clone()]));
-                if listeners.deadlines.len() == 1 {
-                    forwarder_shared.deadline_waker_tx.notify_one();
+            match listeners.deadlines.entry(deadline) {
+                Entry::Vacant(e) => {
+                    e.insert(LinkedList::from([echo.clone()]));
+                    if listeners.deadlines.len() == 1 {
+                        forwarder_shared.deadline_waker_tx.notify_one();
+                    }
+                }
+                Entry::Occupied(mut e) => {
+                    e.get_mut().push_back(echo.clone());
                 }
             }
-            Entry::Occupied(mut e) => {
-                e.get_mut().push_back(echo.clone());
-            }
+        }
+
+        // The waiter is registered before the request leaves: the reply of a nearby host
+        // may be processed by the listener task before this task runs again
+        if let Err(e) = socket
+            .send_to(datagram.meta.peer, datagram.ttl, &serialized)
+            .await
+        {
+            forwarder_shared
+                .listeners
+                .lock()
+                .unwrap()
+                .reply_waiters
+                .remove(echo);
+            return Err(e);
         }
 
         Ok(datagram_pipe::SendStatus::Sent)
